@@ -10,7 +10,7 @@ TABLES = []
 LAKE_TARGETS = ["Moclo.Props.C03"]
 THEOREMS = ["Moclo.C03." + t for t in ["ok_sound", "ok_complete", "error_classes", "order_independent"]]
 # reductions under which a failing case stays a case of this property (see shrink.py)
-SHRINK = {"lists": ["mods", "lower"]}
+SHRINK = {"lists": ["mods", "lower"], "ints": []}
 RULE = ("real plasmids over a 2-nt cutter for every (start, end) pair of the overhang alphabet "
         "{AA,TT,AC,GT,AT,CG,CA} (equal, reverse-complementary and palindromic overhangs); all multisets of <= 2 "
         "modules (quick) / <= 3 (thorough) x 6 vectors x all argument orders, plus random multisets of 3-5 modules "
@@ -72,13 +72,19 @@ def check_case(ctx, case):
     M, V = P["cls"]
     vdown, vup = case["vector"]
     mods = [tuple(m) for m in case["mods"]]
-    v = EntSpec(0, V, CRec(0, P["vecs"][(vdown, vup)], [], []), False)
+    # `rot`: where each plasmid happens to be opened ([vector, module 1, module 2 …] by object id): the outcome is a
+    # function of the overhang graph only
+    rots = case.get("rot") or []
+
+    def opened(wd, oid):
+        return gen.rot(wd, rots[oid] % len(wd)) if oid < len(rots) else wd
+    v = EntSpec(0, V, CRec(0, opened(P["vecs"][(vdown, vup)], 0), [], []), False)
     lower = set(case.get("lower", []))
     # `same_id`: the supplied records all carry one identifier (unnamed records, revisions of one accession):
     # which modules clash is a matter of overhangs and objects, never of names
     same = bool(case.get("same_id"))
-    ents = [EntSpec(i, M, CRec(77 if same else i, P["mods"][(s, e)].lower() if i in lower else P["mods"][(s, e)], [], []),
-                    False) for (s, e, i) in mods]
+    ents = [EntSpec(i, M, CRec(77 if same else i, opened(P["mods"][(s, e)].lower() if i in lower else P["mods"][(s, e)], i),
+                               [], []), False) for (s, e, i) in mods]
     op = ("ASM", 1, 1, v, ents)
     reply, prod, _ = impl.run_asm(op)
     f = reply.split("\t")
@@ -145,8 +151,9 @@ def run(ctx):
         rng.shuffle(mods)
         lower = [m[2] for m in mods if rng.random() < 0.3] if rng.random() < 0.5 else []
         same = rng.random() < 0.25
+        rot = [rng.randrange(64) for _ in range(len(mods) + 2)] if rng.random() < 0.6 else []
         ctx.guard(check_case, {"vector": list(vec), "mods": mods, "asm_corr": (not same) and rng.random() < 0.2,
-                               "lower": lower, "same_id": same})
+                               "lower": lower, "same_id": same, "rot": rot})
     # reverse-complementary / equal start overhangs spelt in different cases, in every argument order
     for _ in range(ctx.budget(150, 3000)):
         vec = rng.choice([v for v in VECTORS if v[0] != v[1]])
